@@ -83,9 +83,13 @@ Definition chunks_ok (mn : mnode) (dn : dnode) : Prop :=
   dn_chunks dn = (if etype_eqb (e_type (mn_e mn)) TReg && (e_size (mn_e mn) >? 0)
                   then [db_chunk (mn_e mn) (e_size (mn_e mn))] else []).
 
+(* the chunk list of the node being created is filled in at the very end of its step *)
+Definition chk (cp : option nat) (x : nat) (mn : mnode) (dn : dnode) : Prop :=
+  (cp <> Some x -> chunks_ok mn dn) /\ (cp = Some x -> dn_chunks dn = []).
+
 Definition nrel (f : pmap) (np cp : option nat) (k x : nat) (mn : mnode) (dn : dnode) : Prop :=
   dn_b dn = write_attr (attr_of (mn_e mn) (mn_nlink mn + nadj np k)) /\ 1 <= mn_nlink mn + nadj np k /\
-  ch_rel f (mn_ch mn) (dn_ch dn) /\ (cp <> Some x -> chunks_ok mn dn).
+  ch_rel f (mn_ch mn) (dn_ch dn) /\ chk cp x mn dn.
 
 Definition init_nl (e : entry) : Z := if etype_eqb (e_type e) TDir then 1 else 0.
 
@@ -106,9 +110,10 @@ Record Inv (toc : list entry) (i : nat) (ms : mst) (ds : dst) (f : pmap) (P : li
   v_L1 : forall p x, d_find ds p = Some x -> p <> [] ->
            exists k, pfind p (ms_m ms) = Some k /\ f k = Some x /\ ~ In p P;
   v_L2 : forall p k x, pfind p (ms_m ms) = Some k -> f k = Some x -> ~ In p P -> d_find ds p = Some x;
-  v_root : (exists r, pfind [] (ms_m ms) = Some r /\ f r = Some O /\ length (ms_nodes ms) = length (ds_nodes ds)) \/
-           (pfind [] (ms_m ms) = None /\ nth_error (ds_nodes ds) 0 = Some (DN (write_attr root_attr) [] [])
-            /\ (forall k, f k <> Some O) /\ S (length (ms_nodes ms)) = length (ds_nodes ds));
+  v_root : (exists r, pfind [] (ms_m ms) = Some r /\ f r = Some O /\ (length (ms_nodes ms) + i = length (ds_nodes ds) + length toc)%nat) \/
+           ((pfind [] (ms_m ms) = None \/ exists r0, pfind [] (ms_m ms) = Some r0 /\ f r0 = None)
+            /\ nth_error (ds_nodes ds) 0 = Some (DN (write_attr root_attr) [] [])
+            /\ (forall k, f k <> Some O) /\ (S (length (ms_nodes ms)) + i = length (ds_nodes ds) + length toc)%nat);
   v_pend : forall p, In p P -> p <> [] /\ exists k x mn, pfind p (ms_m ms) = Some k /\ f k = Some x
                                    /\ nth_error (ms_nodes ms) k = Some mn /\ mn_ch mn = [];
   v_nodupP : NoDup P;
@@ -298,7 +303,7 @@ Proof.
     + assert (x0 = pid) by congruence. subst x0.
       eexists. eexists. split; [exact Mp|]. split; [exact Dp|].
       destruct Hrelp as [Hb [Hn1 [Hc Hck]]]. unfold nrel. cbn [mn_e mn_nlink mn_ch dn_b dn_ch dn_chunks].
-      repeat split.
+      split; [|split; [|split]].
       * destruct isdir; [|exact Hb]. rewrite Hb. rewrite bump_write by exact Hn1. f_equal. f_equal. lia.
       * destruct isdir; lia.
       * apply ch_rel_ins; assumption.
@@ -327,4 +332,1039 @@ Proof.
     + subst p0. rewrite Hk in Hp0. inversion Hp0; subst j. contradiction.
     + exists p0. rewrite Mm. auto.
   - intros y Hy. rewrite Dl. exact (v_cp _ _ _ _ _ _ _ _ H y Hy).
+Qed.
+
+(* ---------- creating an implicit directory in both stores (not yet linked) ---------- *)
+
+Lemma nrel_mono : forall f g np cp k x mn dn, psub f g -> nrel f np cp k x mn dn -> nrel g np cp k x mn dn.
+Proof. intros f g np cp k x mn dn Hs [H1 [H2 [H3 H4]]]. split; [exact H1|]. split; [exact H2|]. split; [exact (ch_rel_mono f g _ _ Hs H3)|exact H4]. Qed.
+
+Lemma pfind_cons : forall {B} (q d : list Z) (k : B) m, pfind q ((d, k) :: m) = if path_eqb q d then Some k else pfind q m.
+Proof. reflexivity. Qed.
+
+Lemma Inv_create : forall toc i ms ds f P np cp d,
+  Inv toc i ms ds f P np cp -> pfind d (ms_m ms) = None -> d <> [] -> Forall plain d -> ~ In d P ->
+  Inv toc i (MS (ms_nodes ms ++ [MN (implicit_dir d) 2 []]) ((d, length (ms_nodes ms)) :: ms_m ms))
+      (fst (d_new ds root_attr)) (pset f (length (ms_nodes ms)) (length (ds_nodes ds))) (d :: P) np cp.
+Proof.
+  intros toc i ms ds f P np cp d H Hnone Hdne Hplain HdP.
+  set (k := length (ms_nodes ms)). set (x := length (ds_nodes ds)).
+  set (f' := pset f k x).
+  assert (Hfk : f k = None).
+  { destruct (f k) as [y|] eqn:E; [|reflexivity]. destruct (v_dom _ _ _ _ _ _ _ _ H k y E) as [mn [_ [Hn _]]].
+    assert (nth_error (ms_nodes ms) k = None) by (apply nth_error_None; unfold k; lia). congruence. }
+  assert (Hsub : psub f f') by (apply psub_pset; exact Hfk).
+  assert (Hlt : forall q k0, pfind q (ms_m ms) = Some k0 -> (k0 < k)%nat).
+  { intros q k0 Hq. destruct (v_mdom _ _ _ _ _ _ _ _ H q k0 Hq) as [mn [Hn _]]. apply nth_error_Some. congruence. }
+  assert (Hflt : forall k0 y, f k0 = Some y -> (k0 < k)%nat /\ (y < x)%nat).
+  { intros k0 y E. destruct (v_dom _ _ _ _ _ _ _ _ H k0 y E) as [mn [dn [Hn [Hd _]]]].
+    split; apply nth_error_Some; congruence. }
+  assert (Hf'old : forall k0, k0 <> k -> f' k0 = f k0) by (intros; apply pset_other; assumption).
+  assert (Hqd : forall q k0, pfind q (ms_m ms) = Some k0 -> path_eqb q d = false).
+  { intros q k0 Hq. apply path_eqb_neq. intro; subst q. congruence. }
+  assert (Hdfind : forall q, d_find (fst (d_new ds root_attr)) q = d_find ds q).
+  { intro q. unfold d_new. simpl fst. apply d_find_app. exact (Inv_range _ _ _ _ _ _ _ _ H). }
+  assert (Hlen1 : (1 <= x)%nat).
+  { destruct (v_root _ _ _ _ _ _ _ _ H) as [[r [_ [Hr _]]]|[_ [H0 _]]].
+    - destruct (Hflt r O Hr). lia.
+    - assert (0 < x)%nat by (apply nth_error_Some; congruence). lia. }
+  assert (Hnpk : nadj np k = 0).
+  { unfold nadj. destruct np as [j|]; [|reflexivity]. destruct (v_np _ _ _ _ _ _ _ _ H j eq_refl) as [p0 [_ Hp0]].
+    apply Hlt in Hp0. replace (Nat.eqb j k) with false by (symmetry; apply Nat.eqb_neq; lia). reflexivity. }
+  assert (Dn : forall z, (z < x)%nat -> nth_error (ds_nodes (fst (d_new ds root_attr))) z = nth_error (ds_nodes ds) z)
+    by (intros z Hz; unfold d_new; simpl; apply nth_error_app1; exact Hz).
+  assert (Dx : nth_error (ds_nodes (fst (d_new ds root_attr))) x = Some (DN (write_attr root_attr) [] []))
+    by (unfold d_new; simpl; rewrite nth_error_app2 by (unfold x; lia); unfold x; rewrite Nat.sub_diag; reflexivity).
+  assert (Mn : forall z, (z < k)%nat -> nth_error (ms_nodes ms ++ [MN (implicit_dir d) 2 []]) z = nth_error (ms_nodes ms) z)
+    by (intros z Hz; apply nth_error_app1; exact Hz).
+  assert (Mk : nth_error (ms_nodes ms ++ [MN (implicit_dir d) 2 []]) k = Some (MN (implicit_dir d) 2 []))
+    by (rewrite nth_error_app2 by (unfold k; lia); unfold k; rewrite Nat.sub_diag; reflexivity).
+  constructor; cbn [ms_nodes ms_m].
+  - rewrite app_length. pose proof (v_lenm _ _ _ _ _ _ _ _ H). lia.
+  - intros j e Hj. rewrite pfind_cons. pose proof (v_expl _ _ _ _ _ _ _ _ H j e Hj) as Hp. rewrite (Hqd _ _ Hp). exact Hp.
+  - intros q k0 Hq. rewrite pfind_cons in Hq. destruct (path_eqb q d) eqn:E.
+    + apply path_eqb_eq in E. inversion Hq; subst. eexists. split; [exact Mk|]. apply cname_implicit. exact Hplain.
+    + destruct (v_mdom _ _ _ _ _ _ _ _ H q k0 Hq) as [mn [Hn Hc]]. exists mn. split; [|exact Hc].
+      rewrite Mn; [exact Hn|]. exact (Hlt q k0 Hq).
+  - intros j mn Hj Hn. pose proof (v_lenm _ _ _ _ _ _ _ _ H). rewrite Mn in Hn by (unfold k; lia).
+    exact (v_ent _ _ _ _ _ _ _ _ H j mn Hj Hn).
+  - intros k0 mn Hk0 Hn. destruct (Nat.lt_ge_cases k0 k) as [Hl|Hg].
+    + rewrite Mn in Hn by exact Hl. destruct (v_impl _ _ _ _ _ _ _ _ H k0 mn Hk0 Hn) as [Hd Hf0]. split; [exact Hd|].
+      rewrite Hf'old by lia. exact Hf0.
+    + destruct (Nat.eq_dec k0 k) as [->|Hne].
+      * rewrite Mk in Hn. inversion Hn; subst mn. split; [exists d; reflexivity|]. unfold f'. rewrite pset_same. discriminate.
+      * assert (nth_error (ms_nodes ms ++ [MN (implicit_dir d) 2 []]) k0 = None)
+          by (apply nth_error_None; rewrite app_length; simpl; unfold k in *; lia). congruence.
+  - intros j mn Hj Hn. pose proof (v_lenm _ _ _ _ _ _ _ _ H). rewrite Mn in Hn by (unfold k; lia).
+    rewrite Hf'old by (unfold k; lia). exact (v_todo _ _ _ _ _ _ _ _ H j mn Hj Hn).
+  - intros j Hj Hjn. pose proof (v_lenm _ _ _ _ _ _ _ _ H). rewrite Hf'old by (unfold k; lia).
+    exact (v_done _ _ _ _ _ _ _ _ H j Hj Hjn).
+  - intros k0 x0 Hf0. destruct (Nat.eq_dec k0 k) as [->|Hne].
+    + unfold f' in Hf0. rewrite pset_same in Hf0. inversion Hf0; subst x0.
+      eexists. eexists. split; [exact Mk|]. split; [exact Dx|].
+      unfold nrel. cbn [mn_e mn_nlink mn_ch dn_b dn_ch dn_chunks]. rewrite Hnpk.
+      split; [reflexivity|]. split; [lia|]. split; [constructor|]. split; [intros _; reflexivity|intros _; reflexivity].
+    + rewrite Hf'old in Hf0 by exact Hne. destruct (Hflt k0 x0 Hf0) as [Hk0 Hx0].
+      destruct (v_dom _ _ _ _ _ _ _ _ H k0 x0 Hf0) as [mn [dn [Hn [Hd Hr]]]].
+      exists mn, dn. split; [rewrite Mn by exact Hk0; exact Hn|]. split; [rewrite Dn by exact Hx0; exact Hd|].
+      exact (nrel_mono f f' _ _ _ _ _ _ Hsub Hr).
+  - intros k0 k1 y H0 H1. destruct (Nat.eq_dec k0 k) as [->|Hne0]; destruct (Nat.eq_dec k1 k) as [->|Hne1]; try reflexivity.
+    + unfold f' in H0. rewrite pset_same in H0. inversion H0; subst y. rewrite Hf'old in H1 by exact Hne1.
+      destruct (Hflt k1 x H1). lia.
+    + unfold f' in H1. rewrite pset_same in H1. inversion H1; subst y. rewrite Hf'old in H0 by exact Hne0.
+      destruct (Hflt k0 x H0). lia.
+    + rewrite Hf'old in H0, H1 by assumption. exact (v_inj _ _ _ _ _ _ _ _ H k0 k1 y H0 H1).
+  - intros q y Hq Hqne. rewrite Hdfind in Hq. destruct (v_L1 _ _ _ _ _ _ _ _ H q y Hq Hqne) as [k0 [H1 [H2 H3]]].
+    exists k0. rewrite pfind_cons, (Hqd _ _ H1). split; [exact H1|]. split; [apply Hsub; exact H2|].
+    intros [E|Hin]; [subst q; congruence|exact (H3 Hin)].
+  - intros q k0 y Hq Hf0 Hnin. rewrite Hdfind. rewrite pfind_cons in Hq. destruct (path_eqb q d) eqn:E.
+    + apply path_eqb_eq in E. subst q. exfalso. apply Hnin. left. reflexivity.
+    + pose proof (Hlt q k0 Hq). rewrite Hf'old in Hf0 by lia.
+      apply (v_L2 _ _ _ _ _ _ _ _ H q k0 y Hq Hf0). intro Hin. apply Hnin. right. exact Hin.
+  - rewrite pfind_cons. rewrite (path_eqb_neq [] d) by (intro E; apply Hdne; symmetry; exact E).
+    rewrite app_length. simpl length. unfold d_new. cbn [fst d_set_nodes ds_nodes]. rewrite app_length. simpl length.
+    destruct (v_root _ _ _ _ _ _ _ _ H) as [[r [Hr [Hfr Hl]]]|[H1 [H2 [H3 H4]]]].
+    + left. exists r. split; [exact Hr|]. split; [apply Hsub; exact Hfr|]. lia.
+    + right. split.
+      { destruct H1 as [H1|[r0 [Hr0 Hfr0]]]; [left; exact H1|right]. exists r0. split; [exact Hr0|].
+        rewrite Hf'old; [exact Hfr0|]. pose proof (Hlt _ _ Hr0). lia. }
+      split; [rewrite nth_error_app1 by (fold x; lia); exact H2|]. split; [|lia].
+      intros k0 Hk0. destruct (Nat.eq_dec k0 k) as [->|Hne].
+      * unfold f' in Hk0. rewrite pset_same in Hk0. inversion Hk0. lia.
+      * rewrite Hf'old in Hk0 by exact Hne. exact (H3 k0 Hk0).
+  - intros q [E|Hin].
+    + subst q. split; [exact Hdne|]. exists k, x, (MN (implicit_dir d) 2 []). rewrite pfind_cons, path_eqb_refl.
+      split; [reflexivity|]. split; [unfold f'; apply pset_same|]. split; [exact Mk|reflexivity].
+    + destruct (v_pend _ _ _ _ _ _ _ _ H q Hin) as [Hqne [k0 [x0 [mn0 [H1 [H2 [H3 H4]]]]]]].
+      split; [exact Hqne|]. exists k0, x0, mn0. rewrite pfind_cons, (Hqd _ _ H1).
+      split; [exact H1|]. split; [apply Hsub; exact H2|]. split; [rewrite Mn by exact (Hlt _ _ H1); exact H3|exact H4].
+  - constructor; [exact HdP|exact (v_nodupP _ _ _ _ _ _ _ _ H)].
+  - intros j Hj. destruct (v_np _ _ _ _ _ _ _ _ H j Hj) as [p0 [Hin Hp0]]. exists p0. split; [right; exact Hin|].
+    rewrite pfind_cons, (Hqd _ _ Hp0). exact Hp0.
+  - intros y Hy. pose proof (v_cp _ _ _ _ _ _ _ _ H y Hy). unfold d_new. cbn [fst d_set_nodes ds_nodes]. rewrite app_length. lia.
+Qed.
+
+(* the memory store creates its root lazily; the db store has had it from the start *)
+Lemma Inv_root_create : forall toc i ms ds f P np cp,
+  Inv toc i ms ds f P np cp -> pfind [] (ms_m ms) = None ->
+  Inv toc i (MS (ms_nodes ms ++ [MN (implicit_dir []) 2 []]) (([], length (ms_nodes ms)) :: ms_m ms))
+      ds (pset f (length (ms_nodes ms)) O) P np cp.
+Proof.
+  intros toc i ms ds f P np cp H Hnone.
+  set (k := length (ms_nodes ms)). set (f' := pset f k O).
+  destruct (v_root _ _ _ _ _ _ _ _ H) as [[r [Hr _]]|[_ [Hroot [Hno Hlen]]]]; [congruence|].
+  assert (Hfk : f k = None).
+  { destruct (f k) as [y|] eqn:E; [|reflexivity]. destruct (v_dom _ _ _ _ _ _ _ _ H k y E) as [mn [_ [Hn _]]].
+    assert (nth_error (ms_nodes ms) k = None) by (apply nth_error_None; unfold k; lia). congruence. }
+  assert (Hsub : psub f f') by (apply psub_pset; exact Hfk).
+  assert (Hlt : forall q k0, pfind q (ms_m ms) = Some k0 -> (k0 < k)%nat).
+  { intros q k0 Hq. destruct (v_mdom _ _ _ _ _ _ _ _ H q k0 Hq) as [mn [Hn _]]. apply nth_error_Some. congruence. }
+  assert (Hflt : forall k0 y, f k0 = Some y -> (k0 < k)%nat).
+  { intros k0 y E. destruct (v_dom _ _ _ _ _ _ _ _ H k0 y E) as [mn [dn [Hn _]]]. apply nth_error_Some. congruence. }
+  assert (Hf'old : forall k0, k0 <> k -> f' k0 = f k0) by (intros; apply pset_other; assumption).
+  assert (Hqd : forall q k0, pfind q (ms_m ms) = Some k0 -> path_eqb q [] = false).
+  { intros q k0 Hq. apply path_eqb_neq. intro; subst q. congruence. }
+  assert (Hnpk : nadj np k = 0).
+  { unfold nadj. destruct np as [j|]; [|reflexivity]. destruct (v_np _ _ _ _ _ _ _ _ H j eq_refl) as [p0 [_ Hp0]].
+    apply Hlt in Hp0. replace (Nat.eqb j k) with false by (symmetry; apply Nat.eqb_neq; lia). reflexivity. }
+  assert (Mn : forall z, (z < k)%nat -> nth_error (ms_nodes ms ++ [MN (implicit_dir []) 2 []]) z = nth_error (ms_nodes ms) z)
+    by (intros z Hz; apply nth_error_app1; exact Hz).
+  assert (Mk : nth_error (ms_nodes ms ++ [MN (implicit_dir []) 2 []]) k = Some (MN (implicit_dir []) 2 []))
+    by (rewrite nth_error_app2 by (unfold k; lia); unfold k; rewrite Nat.sub_diag; reflexivity).
+  constructor; cbn [ms_nodes ms_m].
+  - rewrite app_length. pose proof (v_lenm _ _ _ _ _ _ _ _ H). lia.
+  - intros j e Hj. rewrite pfind_cons. pose proof (v_expl _ _ _ _ _ _ _ _ H j e Hj) as Hp. rewrite (Hqd _ _ Hp). exact Hp.
+  - intros q k0 Hq. rewrite pfind_cons in Hq. destruct (path_eqb q []) eqn:E.
+    + apply path_eqb_eq in E. inversion Hq; subst. eexists. split; [exact Mk|]. reflexivity.
+    + destruct (v_mdom _ _ _ _ _ _ _ _ H q k0 Hq) as [mn [Hn Hc]]. exists mn. split; [|exact Hc].
+      rewrite Mn; [exact Hn|]. exact (Hlt q k0 Hq).
+  - intros j mn Hj Hn. pose proof (v_lenm _ _ _ _ _ _ _ _ H). rewrite Mn in Hn by (unfold k; lia).
+    exact (v_ent _ _ _ _ _ _ _ _ H j mn Hj Hn).
+  - intros k0 mn Hk0 Hn. destruct (Nat.lt_ge_cases k0 k) as [Hl|Hg].
+    + rewrite Mn in Hn by exact Hl. destruct (v_impl _ _ _ _ _ _ _ _ H k0 mn Hk0 Hn) as [Hd Hf0]. split; [exact Hd|].
+      rewrite Hf'old by lia. exact Hf0.
+    + destruct (Nat.eq_dec k0 k) as [->|Hne].
+      * rewrite Mk in Hn. inversion Hn; subst mn. split; [exists []; reflexivity|]. unfold f'. rewrite pset_same. discriminate.
+      * assert (nth_error (ms_nodes ms ++ [MN (implicit_dir []) 2 []]) k0 = None)
+          by (apply nth_error_None; rewrite app_length; simpl; unfold k in *; lia). congruence.
+  - intros j mn Hj Hn. pose proof (v_lenm _ _ _ _ _ _ _ _ H). rewrite Mn in Hn by (unfold k; lia).
+    rewrite Hf'old by (unfold k; lia). exact (v_todo _ _ _ _ _ _ _ _ H j mn Hj Hn).
+  - intros j Hj Hjn. pose proof (v_lenm _ _ _ _ _ _ _ _ H). rewrite Hf'old by (unfold k; lia).
+    exact (v_done _ _ _ _ _ _ _ _ H j Hj Hjn).
+  - intros k0 x0 Hf0. destruct (Nat.eq_dec k0 k) as [->|Hne].
+    + unfold f' in Hf0. rewrite pset_same in Hf0. inversion Hf0; subst x0.
+      eexists. eexists. split; [exact Mk|]. split; [exact Hroot|].
+      unfold nrel. cbn [mn_e mn_nlink mn_ch dn_b dn_ch dn_chunks]. rewrite Hnpk.
+      split; [reflexivity|]. split; [lia|]. split; [constructor|]. split; [intros _; reflexivity|intros _; reflexivity].
+    + rewrite Hf'old in Hf0 by exact Hne. pose proof (Hflt k0 x0 Hf0) as Hk0.
+      destruct (v_dom _ _ _ _ _ _ _ _ H k0 x0 Hf0) as [mn [dn [Hn [Hd Hr]]]].
+      exists mn, dn. split; [rewrite Mn by exact Hk0; exact Hn|]. split; [exact Hd|].
+      exact (nrel_mono f f' _ _ _ _ _ _ Hsub Hr).
+  - intros k0 k1 y H0 H1. destruct (Nat.eq_dec k0 k) as [->|Hne0]; destruct (Nat.eq_dec k1 k) as [->|Hne1]; try reflexivity.
+    + unfold f' in H0. rewrite pset_same in H0. inversion H0; subst y. rewrite Hf'old in H1 by exact Hne1.
+      exfalso. exact (Hno k1 H1).
+    + unfold f' in H1. rewrite pset_same in H1. inversion H1; subst y. rewrite Hf'old in H0 by exact Hne0.
+      exfalso. exact (Hno k0 H0).
+    + rewrite Hf'old in H0, H1 by assumption. exact (v_inj _ _ _ _ _ _ _ _ H k0 k1 y H0 H1).
+  - intros q y Hq Hqne. destruct (v_L1 _ _ _ _ _ _ _ _ H q y Hq Hqne) as [k0 [H1 [H2 H3]]].
+    exists k0. rewrite pfind_cons, (Hqd _ _ H1). split; [exact H1|]. split; [apply Hsub; exact H2|exact H3].
+  - intros q k0 y Hq Hf0 Hnin. rewrite pfind_cons in Hq. destruct (path_eqb q []) eqn:E.
+    + apply path_eqb_eq in E. subst q. inversion Hq; subst k0. unfold f' in Hf0. rewrite pset_same in Hf0. inversion Hf0. reflexivity.
+    + pose proof (Hlt q k0 Hq). rewrite Hf'old in Hf0 by lia. exact (v_L2 _ _ _ _ _ _ _ _ H q k0 y Hq Hf0 Hnin).
+  - left. exists k. rewrite pfind_cons. simpl. split; [reflexivity|]. split; [unfold f'; apply pset_same|].
+    rewrite app_length. simpl. fold k. lia.
+  - intros q Hin. destruct (v_pend _ _ _ _ _ _ _ _ H q Hin) as [Hqne [k0 [x0 [mn0 [H1 [H2 [H3 H4]]]]]]].
+    split; [exact Hqne|]. exists k0, x0, mn0. rewrite pfind_cons, (Hqd _ _ H1).
+    split; [exact H1|]. split; [apply Hsub; exact H2|]. split; [rewrite Mn by exact (Hlt _ _ H1); exact H3|exact H4].
+  - exact (v_nodupP _ _ _ _ _ _ _ _ H).
+  - intros j Hj. destruct (v_np _ _ _ _ _ _ _ _ H j Hj) as [p0 [Hin Hp0]]. exists p0. split; [exact Hin|].
+    rewrite pfind_cons, (Hqd _ _ Hp0). exact Hp0.
+  - exact (v_cp _ _ _ _ _ _ _ _ H).
+Qed.
+
+(* ---------- getOrCreateDir of both stores ---------- *)
+
+Lemma m_add_child_m : forall s kp b k, ms_m (m_add_child s kp b k) = ms_m s.
+Proof.
+  intros s kp b k. unfold m_add_child.
+  set (s1 := if etype_eqb (m_type s k) TDir then m_nlink_inc s kp else s).
+  assert (H1 : ms_m s1 = ms_m s).
+  { unfold s1. destruct (etype_eqb (m_type s k) TDir); [|reflexivity]. unfold m_nlink_inc. destruct (nth_error (ms_nodes s) kp); reflexivity. }
+  destruct (nth_error (ms_nodes s1) kp); simpl; exact H1.
+Qed.
+
+Lemma m_goc_cons_none : forall s b t, pfind (b :: t) (ms_m s) = None ->
+  m_goc s (b :: t) =
+  let k := length (ms_nodes s) in
+  let s1 := MS (ms_nodes s ++ [MN (implicit_dir (b :: t)) 2 []]) ((b :: t, k) :: ms_m s) in
+  let '(s2, pid) := m_goc s1 t in (m_add_child s2 pid b k, k).
+Proof. intros s b t H. cbn [m_goc]. rewrite H. reflexivity. Qed.
+
+Lemma d_goc_cons_none : forall s b t, d_find s (b :: t) = None ->
+  d_goc s (b :: t) =
+  let s1 := d_set_nodes s (ds_nodes s ++ [DN (write_attr root_attr) [] []]) in
+  let k := length (ds_nodes s) in
+  let '(s2, pid) := d_goc s1 t in (d_set_child s2 pid b k true, k).
+Proof. intros s b t H. cbn [d_goc]. rewrite H. reflexivity. Qed.
+
+Lemma goc_sim : forall toc i np cp d ms ds f P,
+  Inv toc i ms ds f P np cp -> Forall plain d ->
+  (forall q k, sfx q d -> pfind q (ms_m ms) = Some k -> f k <> None) ->
+  (forall q, sfx q d -> ~ In q P) ->
+  exists ms' ds' f' kp pid,
+    m_goc ms d = (ms', kp) /\ d_goc ds d = (ds', pid) /\ Inv toc i ms' ds' f' P np cp /\
+    pfind d (ms_m ms') = Some kp /\ f' kp = Some pid /\ psub f f' /\
+    (forall q k, pfind q (ms_m ms) = Some k -> pfind q (ms_m ms') = Some k).
+Proof.
+  intros toc i np cp. induction d as [|b t IH]; intros ms ds f P H Hplain Hanc HnP.
+  - destruct (pfind [] (ms_m ms)) as [r|] eqn:Er.
+    + destruct (f r) as [y|] eqn:Ey; [|exfalso; exact (Hanc [] r (sfx_refl []) Er Ey)].
+      pose proof (v_L2 _ _ _ _ _ _ _ _ H [] r y Er Ey (HnP [] (sfx_refl []))) as Hd. simpl in Hd. inversion Hd; subst y.
+      exists ms, ds, f, r, O. rewrite (m_goc_found ms [] r Er).
+      split; [reflexivity|]. split; [reflexivity|]. split; [exact H|]. split; [exact Er|]. split; [exact Ey|]. split; [apply psub_refl|auto].
+    + pose proof (Inv_root_create _ _ _ _ _ _ _ _ H Er) as H1.
+      eexists. exists ds. eexists. exists (length (ms_nodes ms)), O.
+      split; [simpl; rewrite Er; reflexivity|]. split; [reflexivity|]. split; [exact H1|].
+      cbn [ms_m]. split; [rewrite pfind_cons; reflexivity|]. split; [apply pset_same|]. split.
+      * apply psub_pset. destruct (f (length (ms_nodes ms))) as [y|] eqn:E; [|reflexivity].
+        destruct (v_dom _ _ _ _ _ _ _ _ H _ y E) as [mn [_ [Hn _]]].
+        assert (nth_error (ms_nodes ms) (length (ms_nodes ms)) = None) by (apply nth_error_None; lia). congruence.
+      * intros q k Hq. rewrite pfind_cons. rewrite path_eqb_neq; [exact Hq|]. intro; subst q. congruence.
+  - set (d := b :: t) in *.
+    destruct (pfind d (ms_m ms)) as [k0|] eqn:Ek.
+    + destruct (f k0) as [y|] eqn:Ey; [|exfalso; exact (Hanc d k0 (sfx_refl d) Ek Ey)].
+      pose proof (v_L2 _ _ _ _ _ _ _ _ H d k0 y Ek Ey (HnP d (sfx_refl d))) as Hd.
+      exists ms, ds, f, k0, y. rewrite (m_goc_found ms d k0 Ek), (d_goc_found ds d y Hd).
+      split; [reflexivity|]. split; [reflexivity|]. split; [exact H|]. split; [exact Ek|]. split; [exact Ey|]. split; [apply psub_refl|auto].
+    + assert (Ed : d_find ds d = None).
+      { destruct (d_find ds d) as [y|] eqn:E; [|reflexivity].
+        destruct (v_L1 _ _ _ _ _ _ _ _ H d y E ltac:(discriminate)) as [k0 [Hk0 _]]. congruence. }
+      set (k := length (ms_nodes ms)). set (x := length (ds_nodes ds)).
+      assert (HdP : ~ In d P) by exact (HnP d (sfx_refl d)).
+      pose proof (Inv_create _ _ _ _ _ _ _ _ d H Ek ltac:(discriminate) Hplain HdP) as H1.
+      set (ms1 := MS (ms_nodes ms ++ [MN (implicit_dir d) 2 []]) ((d, k) :: ms_m ms)) in *.
+      set (ds1 := fst (d_new ds root_attr)) in *. set (f1 := pset f k x) in *.
+      assert (Hfk : f k = None).
+      { destruct (f k) as [y|] eqn:E; [|reflexivity]. destruct (v_dom _ _ _ _ _ _ _ _ H k y E) as [mn [_ [Hn _]]].
+        assert (nth_error (ms_nodes ms) k = None) by (apply nth_error_None; unfold k; lia). congruence. }
+      assert (Hsub1 : psub f f1) by (apply psub_pset; exact Hfk).
+      assert (Hplt : Forall plain t) by (inversion Hplain; assumption).
+      assert (Hqne : forall q, sfx q t -> q <> d).
+      { intros q Hq E. subst q. exact (not_sfx_longer b t Hq). }
+      destruct (IH ms1 ds1 f1 (d :: P) H1 Hplt) as [ms2 [ds2 [f2 [kp [pid [G1 [G2 [H2 [Hpt [Hfkp [Hsub2 Hmono2]]]]]]]]]]].
+      { intros q k0 Hq Hp Hf. cbn [ms1 ms_m] in Hp. rewrite pfind_cons in Hp.
+        rewrite (path_eqb_neq q d (Hqne q Hq)) in Hp.
+        destruct (f k0) as [y|] eqn:Ey.
+        - rewrite (Hsub1 k0 y Ey) in Hf. discriminate.
+        - exact (Hanc q k0 (sfx_tl q b t Hq) Hp Ey). }
+      { intros q Hq [E|Hin]; [exact (Hqne q Hq (eq_sym E))|exact (HnP q (sfx_tl q b t Hq) Hin)]. }
+      assert (Hdk2 : pfind d (ms_m ms2) = Some k).
+      { apply Hmono2. cbn [ms1 ms_m]. rewrite pfind_cons, path_eqb_refl. reflexivity. }
+      assert (Hfk2 : f2 k = Some x) by (apply Hsub2; unfold f1; apply pset_same).
+      assert (HtP : ~ In t (d :: P)).
+      { intros [E|Hin]; [exact (Hqne t (sfx_refl t) (eq_sym E))|exact (HnP t (sfx_tl t b t (sfx_refl t)) Hin)]. }
+      assert (Hnpk : np <> Some k).
+      { intro E. destruct (v_np _ _ _ _ _ _ _ _ H k E) as [p0 [_ Hp0]].
+        destruct (v_mdom _ _ _ _ _ _ _ _ H p0 k Hp0) as [mn [Hn _]].
+        assert (nth_error (ms_nodes ms) k = None) by (apply nth_error_None; unfold k; lia). congruence. }
+      pose proof (Inv_link _ _ _ _ _ d P np cp b t k x kp pid H2 eq_refl Hdk2 Hfk2 Hpt Hfkp HtP Hnpk) as H3.
+      assert (Htype : etype_eqb (m_type ms2 k) TDir = true).
+      { destruct (v_mdom _ _ _ _ _ _ _ _ H2 d k Hdk2) as [mn [Hn _]].
+        assert (Hkn : (length toc <= k)%nat) by (unfold k; exact (v_lenm _ _ _ _ _ _ _ _ H)).
+        destruct (v_impl _ _ _ _ _ _ _ _ H2 k mn Hkn Hn) as [[d' Hd'] _].
+        unfold m_type. rewrite Hn, Hd'. reflexivity. }
+      rewrite Htype in H3.
+      exists (m_add_child ms2 kp b k), (d_set_child ds2 pid b x true), f2, k, x.
+      split.
+      { unfold d. rewrite (m_goc_cons_none ms b t Ek). cbv zeta. fold d. fold k. fold ms1. rewrite G1. reflexivity. }
+      split.
+      { unfold d. rewrite (d_goc_cons_none ds b t Ed). cbv zeta. fold d. fold x.
+        change (d_set_nodes ds (ds_nodes ds ++ [DN (write_attr root_attr) [] []])) with ds1.
+        rewrite G2. reflexivity. }
+      split; [exact H3|].
+      rewrite m_add_child_m. split; [exact Hdk2|]. split; [exact Hfk2|]. split; [exact (psub_trans _ _ _ Hsub1 Hsub2)|].
+      intros q k0 Hq. apply Hmono2. cbn [ms1 ms_m]. rewrite pfind_cons. rewrite path_eqb_neq; [exact Hq|].
+      intro; subst q. congruence.
+Qed.
+
+(* ---------- one entry (not a hardlink, not a chunk, not yet present in the db tree) ---------- *)
+
+Lemma nrel_retag : forall f g np cp np' cp' k x mn dn, psub f g ->
+  nadj np' k = nadj np k -> ((cp' = Some x) <-> (cp = Some x)) ->
+  nrel f np cp k x mn dn -> nrel g np' cp' k x mn dn.
+Proof.
+  intros f g np cp np' cp' k x mn dn Hs Ha Hc [H1 [H2 [H3 [H4 H5]]]]. unfold nrel. rewrite Ha.
+  split; [exact H1|]. split; [exact H2|]. split; [exact (ch_rel_mono f g _ _ Hs H3)|].
+  split; intro E; [apply H4|apply H5]; tauto.
+Qed.
+
+(* the db store creates the node of entry i *)
+Lemma Inv_begin : forall toc i ms ds f e,
+  Inv toc i ms ds f [] None None -> nth_error toc i = Some e -> cname e <> [] ->
+  Inv toc (S i) ms (fst (d_new ds (attr_of e (init_nl e + 1)))) (pset f i (length (ds_nodes ds)))
+      [cname e] (Some i) (Some (length (ds_nodes ds))).
+Proof.
+  intros toc i ms ds f e H Hi Hne.
+  set (x := length (ds_nodes ds)). set (f' := pset f i x).
+  assert (Li : (i < length toc)%nat) by (apply nth_error_Some; congruence).
+  destruct (nth_error (ms_nodes ms) i) as [mni|] eqn:Hmni;
+    [|apply nth_error_None in Hmni; pose proof (v_lenm _ _ _ _ _ _ _ _ H); lia].
+  assert (Hei : mn_e mni = e).
+  { pose proof (v_ent _ _ _ _ _ _ _ _ H i mni Li Hmni) as E. rewrite Hi in E. inversion E. reflexivity. }
+  destruct (v_todo _ _ _ _ _ _ _ _ H i mni (conj (le_n i) Li) Hmni) as [Hfi [Hnl Hch]].
+  assert (Hsub : psub f f') by (apply psub_pset; exact Hfi).
+  assert (Hpi : pfind (cname e) (ms_m ms) = Some i) by exact (v_expl _ _ _ _ _ _ _ _ H i e Hi).
+  assert (Hflt : forall k0 y, f k0 = Some y -> (y < x)%nat).
+  { intros k0 y E. destruct (v_dom _ _ _ _ _ _ _ _ H k0 y E) as [mn [dn [_ [Hd _]]]]. apply nth_error_Some. congruence. }
+  assert (Hf'old : forall k0, k0 <> i -> f' k0 = f k0) by (intros; apply pset_other; assumption).
+  assert (Hdfind : forall q, d_find (fst (d_new ds (attr_of e (init_nl e + 1)))) q = d_find ds q).
+  { intro q. unfold d_new. simpl fst. apply d_find_app. exact (Inv_range _ _ _ _ _ _ _ _ H). }
+  assert (Dn : forall z, (z < x)%nat -> nth_error (ds_nodes (fst (d_new ds (attr_of e (init_nl e + 1))))) z = nth_error (ds_nodes ds) z)
+    by (intros z Hz; unfold d_new; simpl; apply nth_error_app1; exact Hz).
+  assert (Dx : nth_error (ds_nodes (fst (d_new ds (attr_of e (init_nl e + 1))))) x = Some (DN (write_attr (attr_of e (init_nl e + 1))) [] []))
+    by (unfold d_new; simpl; rewrite nth_error_app2 by (unfold x; lia); unfold x; rewrite Nat.sub_diag; reflexivity).
+  assert (Hnamei : forall q k0, pfind q (ms_m ms) = Some k0 -> k0 <> i -> q <> cname e).
+  { intros q k0 Hq Hk0 E. subst q. congruence. }
+  constructor.
+  - exact (v_lenm _ _ _ _ _ _ _ _ H).
+  - exact (v_expl _ _ _ _ _ _ _ _ H).
+  - exact (v_mdom _ _ _ _ _ _ _ _ H).
+  - exact (v_ent _ _ _ _ _ _ _ _ H).
+  - intros k0 mn Hk0 Hn. destruct (v_impl _ _ _ _ _ _ _ _ H k0 mn Hk0 Hn) as [Hd Hf0]. split; [exact Hd|].
+    rewrite Hf'old by lia. exact Hf0.
+  - intros j mn Hj Hn. rewrite Hf'old by lia. apply (v_todo _ _ _ _ _ _ _ _ H j mn); [lia|exact Hn].
+  - intros j Hj Hjn. destruct (Nat.eq_dec j i) as [->|Hji].
+    + unfold f'. rewrite pset_same. discriminate.
+    + rewrite Hf'old by exact Hji. apply (v_done _ _ _ _ _ _ _ _ H); lia.
+  - intros k0 x0 Hf0. destruct (Nat.eq_dec k0 i) as [->|Hne0].
+    + unfold f' in Hf0. rewrite pset_same in Hf0. inversion Hf0; subst x0.
+      exists mni. eexists. split; [exact Hmni|]. split; [exact Dx|].
+      unfold nrel. cbn [dn_b dn_ch dn_chunks]. unfold nadj. rewrite Nat.eqb_refl. rewrite Hei, Hnl, Hch, Hei.
+      split; [reflexivity|]. split; [unfold init_nl; destruct (etype_eqb (e_type e) TDir); lia|]. split; [constructor|].
+      split; [intro E; exfalso; apply E; reflexivity|intros _; reflexivity].
+    + rewrite Hf'old in Hf0 by exact Hne0. pose proof (Hflt k0 x0 Hf0) as Hx0.
+      destruct (v_dom _ _ _ _ _ _ _ _ H k0 x0 Hf0) as [mn [dn [Hn [Hd Hr]]]].
+      exists mn, dn. split; [exact Hn|]. split; [rewrite Dn by exact Hx0; exact Hd|].
+      apply (nrel_retag f f' None None (Some i) (Some x)); [exact Hsub| | |exact Hr].
+      * simpl. replace (Nat.eqb i k0) with false by (symmetry; apply Nat.eqb_neq; congruence). reflexivity.
+      * split; intro E; [inversion E; lia|discriminate].
+  - intros k0 k1 y H0 H1. destruct (Nat.eq_dec k0 i) as [->|Hne0]; destruct (Nat.eq_dec k1 i) as [->|Hne1]; try reflexivity.
+    + unfold f' in H0. rewrite pset_same in H0. inversion H0; subst y. rewrite Hf'old in H1 by exact Hne1.
+      pose proof (Hflt k1 x H1). lia.
+    + unfold f' in H1. rewrite pset_same in H1. inversion H1; subst y. rewrite Hf'old in H0 by exact Hne0.
+      pose proof (Hflt k0 x H0). lia.
+    + rewrite Hf'old in H0, H1 by assumption. exact (v_inj _ _ _ _ _ _ _ _ H k0 k1 y H0 H1).
+  - intros q y Hq Hqne. rewrite Hdfind in Hq. destruct (v_L1 _ _ _ _ _ _ _ _ H q y Hq Hqne) as [k0 [H1 [H2 _]]].
+    exists k0. split; [exact H1|]. split; [apply Hsub; exact H2|].
+    intros [E|[]]. apply (Hnamei q k0 H1); [intro; subst k0; congruence|symmetry; exact E].
+  - intros q k0 y Hq Hf0 Hnin. rewrite Hdfind. destruct (Nat.eq_dec k0 i) as [->|Hne0].
+    + exfalso. apply Hnin. left. exact (Inv_pfun_name _ _ _ _ _ _ _ _ H _ _ _ Hpi Hq).
+    + rewrite Hf'old in Hf0 by exact Hne0. apply (v_L2 _ _ _ _ _ _ _ _ H q k0 y Hq Hf0). intros [].
+  - unfold d_new. cbn [fst d_set_nodes ds_nodes]. rewrite app_length. simpl length. fold x.
+    destruct (v_root _ _ _ _ _ _ _ _ H) as [[r [Hr [Hfr Hl]]]|[H1 [H2 [H3 H4]]]].
+    + left. exists r. split; [exact Hr|]. split; [apply Hsub; exact Hfr|]. fold x in Hl. lia.
+    + right. split.
+      { destruct H1 as [H1|[r0 [Hr0 Hfr0]]]; [left; exact H1|right]. exists r0. split; [exact Hr0|].
+        destruct (Nat.eq_dec r0 i) as [->|Hr0i].
+        - exfalso. assert (cname e = []) by exact (Inv_pfun_name _ _ _ _ _ _ _ _ H _ _ _ Hpi Hr0). contradiction.
+        - rewrite Hf'old by exact Hr0i. exact Hfr0. }
+      assert (0 < x)%nat by (apply nth_error_Some; unfold x; congruence).
+      split; [rewrite nth_error_app1 by (fold x; lia); exact H2|]. split; [|fold x in H4; lia].
+      intros k0 Hk0. destruct (Nat.eq_dec k0 i) as [->|Hne0].
+      * unfold f' in Hk0. rewrite pset_same in Hk0. inversion Hk0. lia.
+      * rewrite Hf'old in Hk0 by exact Hne0. exact (H3 k0 Hk0).
+  - intros q [E|[]]. subst q. split; [exact Hne|]. exists i, x, mni.
+    split; [exact Hpi|]. split; [unfold f'; apply pset_same|]. split; [exact Hmni|exact Hch].
+  - constructor; [intros []|constructor].
+  - intros j Hj. inversion Hj; subst j. exists (cname e). split; [left; reflexivity|exact Hpi].
+  - intros y Hy. inversion Hy; subst y. unfold d_new. cbn [fst d_set_nodes ds_nodes]. rewrite app_length. simpl. fold x. lia.
+Qed.
+
+(* the memory store counts the entry's own name (ent.NumLink++) after getOrCreateDir *)
+Lemma Inv_npdone : forall toc i ms ds f P cp j,
+  Inv toc i ms ds f P (Some j) cp -> Inv toc i (m_nlink_inc ms j) ds f P None cp.
+Proof.
+  intros toc i ms ds f P cp j H.
+  destruct (v_np _ _ _ _ _ _ _ _ H j eq_refl) as [p0 [Hin0 Hp0]].
+  destruct (v_mdom _ _ _ _ _ _ _ _ H p0 j Hp0) as [mnj [Hmnj Hcj]].
+  destruct (v_pend _ _ _ _ _ _ _ _ H p0 Hin0) as [_ [k9 [x9 [mn9 [Hk9 [Hfj _]]]]]].
+  rewrite Hp0 in Hk9. inversion Hk9; subst k9.
+  assert (Lj : (j < length (ms_nodes ms))%nat) by (apply nth_error_Some; congruence).
+  assert (Hs : m_nlink_inc ms j = MS (upd (ms_nodes ms) j (MN (mn_e mnj) (mn_nlink mnj + 1) (mn_ch mnj))) (ms_m ms))
+    by (unfold m_nlink_inc; rewrite Hmnj; reflexivity).
+  rewrite Hs.
+  assert (Mj : nth_error (upd (ms_nodes ms) j (MN (mn_e mnj) (mn_nlink mnj + 1) (mn_ch mnj))) j = Some (MN (mn_e mnj) (mn_nlink mnj + 1) (mn_ch mnj)))
+    by (apply nth_upd_same; exact Lj).
+  assert (Mo : forall z, z <> j -> nth_error (upd (ms_nodes ms) j (MN (mn_e mnj) (mn_nlink mnj + 1) (mn_ch mnj))) z = nth_error (ms_nodes ms) z)
+    by (intros z Hz; apply nth_upd_other; congruence).
+  assert (Mnth : forall z mn, nth_error (upd (ms_nodes ms) j (MN (mn_e mnj) (mn_nlink mnj + 1) (mn_ch mnj))) z = Some mn ->
+            exists mn0, nth_error (ms_nodes ms) z = Some mn0 /\ mn_e mn = mn_e mn0 /\ mn_ch mn = mn_ch mn0 /\ (z <> j -> mn = mn0)).
+  { intros z mn Hz. destruct (Nat.eq_dec z j) as [->|Hne].
+    - rewrite Mj in Hz. inversion Hz; subst mn. exists mnj. simpl. repeat split; auto. intro; contradiction.
+    - rewrite Mo in Hz by exact Hne. exists mn. auto. }
+  constructor; cbn [ms_nodes ms_m].
+  - rewrite upd_length. exact (v_lenm _ _ _ _ _ _ _ _ H).
+  - exact (v_expl _ _ _ _ _ _ _ _ H).
+  - intros q k0 Hq. destruct (v_mdom _ _ _ _ _ _ _ _ H q k0 Hq) as [mn [Hn Hc]].
+    destruct (Nat.eq_dec k0 j) as [->|Hne].
+    + eexists. split; [exact Mj|]. simpl. rewrite Hmnj in Hn. inversion Hn; subst mn. exact Hc.
+    + exists mn. split; [rewrite Mo by exact Hne; exact Hn|exact Hc].
+  - intros j0 mn Hj0 Hn. destruct (Mnth j0 mn Hn) as [mn0 [Hn0 [He _]]]. rewrite He. exact (v_ent _ _ _ _ _ _ _ _ H j0 mn0 Hj0 Hn0).
+  - intros k0 mn Hk0 Hn. destruct (Mnth k0 mn Hn) as [mn0 [Hn0 [He _]]]. rewrite He. exact (v_impl _ _ _ _ _ _ _ _ H k0 mn0 Hk0 Hn0).
+  - intros j0 mn Hj0 Hn. destruct (Mnth j0 mn Hn) as [mn0 [Hn0 [He [Hc Hsame]]]].
+    destruct (v_todo _ _ _ _ _ _ _ _ H j0 mn0 Hj0 Hn0) as [Hf0 Hrest].
+    assert (j0 <> j) by (intro; subst j0; congruence). rewrite (Hsame H0). split; assumption.
+  - exact (v_done _ _ _ _ _ _ _ _ H).
+  - intros k0 y Hf0. destruct (v_dom _ _ _ _ _ _ _ _ H k0 y Hf0) as [mn [dn [Hn [Hd Hr]]]].
+    destruct (Nat.eq_dec k0 j) as [->|Hne].
+    + rewrite Hmnj in Hn. inversion Hn; subst mn. eexists. exists dn. split; [exact Mj|]. split; [exact Hd|].
+      destruct Hr as [H1 [H2 [H3 H4]]]. unfold nrel, nadj in *. rewrite Nat.eqb_refl in H1, H2. cbn [mn_e mn_nlink mn_ch].
+      split; [rewrite Z.add_0_r; exact H1|]. split; [lia|]. split; [exact H3|exact H4].
+    + exists mn, dn. split; [rewrite Mo by exact Hne; exact Hn|]. split; [exact Hd|].
+      apply (nrel_retag f f (Some j) cp None cp); [apply psub_refl| |tauto|exact Hr].
+      simpl. replace (Nat.eqb j k0) with false by (symmetry; apply Nat.eqb_neq; congruence). reflexivity.
+  - exact (v_inj _ _ _ _ _ _ _ _ H).
+  - exact (v_L1 _ _ _ _ _ _ _ _ H).
+  - exact (v_L2 _ _ _ _ _ _ _ _ H).
+  - rewrite upd_length. exact (v_root _ _ _ _ _ _ _ _ H).
+  - intros q Hin. destruct (v_pend _ _ _ _ _ _ _ _ H q Hin) as [Hqne [k0 [x1 [mn1 [H1 [H2 [H3 H4]]]]]]].
+    split; [exact Hqne|]. destruct (Nat.eq_dec k0 j) as [->|Hne].
+    + exists j, x1. eexists. split; [exact H1|]. split; [exact H2|]. split; [exact Mj|]. simpl.
+      rewrite Hmnj in H3. inversion H3; subst mn1. exact H4.
+    + exists k0, x1, mn1. split; [exact H1|]. split; [exact H2|]. split; [rewrite Mo by exact Hne; exact H3|exact H4].
+  - exact (v_nodupP _ _ _ _ _ _ _ _ H).
+  - intros j0 Hj0. discriminate.
+  - exact (v_cp _ _ _ _ _ _ _ _ H).
+Qed.
+
+Lemma d_find_ext : forall s s', (forall y, d_children s y = d_children s' y) -> forall p, d_find s p = d_find s' p.
+Proof.
+  intros s s' Hc. induction p as [|b q IH]; [reflexivity|]. rewrite !d_find_cons, IH.
+  destruct (d_find s' q); [rewrite Hc; reflexivity|reflexivity].
+Qed.
+
+(* the chunk of the entry is appended to its node at the end of the step *)
+Lemma Inv_finish : forall toc i ms ds f k x mn e cs,
+  Inv toc i ms ds f [] None (Some x) -> f k = Some x -> nth_error (ms_nodes ms) k = Some mn -> mn_e mn = e ->
+  etype_eqb (e_type e) TChunk = false -> cs = db_chsize e (e_size e) ->
+  Inv toc i ms (d_add_chunk (DS (ds_nodes ds) (Some x) (e_size e)) e cs) f [] None None.
+Proof.
+  intros toc i ms ds f k x mn e cs H Hfk Hmn He Hnc Hcs.
+  destruct (v_dom _ _ _ _ _ _ _ _ H k x Hfk) as [mn' [dnx [Hn' [Hdx Hrx]]]].
+  rewrite Hmn in Hn'. inversion Hn'; subst mn'.
+  set (s3 := DS (ds_nodes ds) (Some x) (e_size e)).
+  pose proof (d_add_chunk_nodes s3 e cs x dnx eq_refl Hdx Hnc) as Hnodes.
+  set (ds' := d_add_chunk s3 e cs) in *.
+  assert (Lx : (x < length (ds_nodes ds))%nat) by (apply nth_error_Some; congruence).
+  assert (Dl : length (ds_nodes ds') = length (ds_nodes ds)).
+  { rewrite Hnodes. destruct (etype_eqb (e_type e) TReg && (e_size e >? 0)); [apply upd_length|reflexivity]. }
+  assert (Do : forall z, z <> x -> nth_error (ds_nodes ds') z = nth_error (ds_nodes ds) z).
+  { intros z Hz. rewrite Hnodes. destruct (etype_eqb (e_type e) TReg && (e_size e >? 0)); [|reflexivity].
+    apply nth_upd_other. congruence. }
+  assert (Dx : exists dn', nth_error (ds_nodes ds') x = Some dn' /\ dn_b dn' = dn_b dnx /\ dn_ch dn' = dn_ch dnx /\ chunks_ok mn dn').
+  { destruct Hrx as [_ [_ [_ [_ Hempty]]]]. specialize (Hempty eq_refl). rewrite Hnodes. unfold chunks_ok. rewrite He.
+    destruct (etype_eqb (e_type e) TReg && (e_size e >? 0)).
+    - eexists. split; [apply nth_upd_same; exact Lx|]. cbn [dn_b dn_ch dn_chunks]. rewrite Hempty, Hcs. repeat split.
+    - exists dnx. repeat split; [exact Hdx|exact Hempty]. }
+  destruct Dx as [dn' [Dx [Db [Dc Dk]]]].
+  assert (Hch : forall y, d_children ds y = d_children ds' y).
+  { intro y. unfold d_children. destruct (Nat.eq_dec y x) as [->|Hne].
+    - rewrite Hdx, Dx, Dc. reflexivity.
+    - rewrite Do by exact Hne. reflexivity. }
+  assert (Hfind : forall p, d_find ds' p = d_find ds p) by (intro p; symmetry; apply d_find_ext; exact Hch).
+  constructor.
+  - exact (v_lenm _ _ _ _ _ _ _ _ H).
+  - exact (v_expl _ _ _ _ _ _ _ _ H).
+  - exact (v_mdom _ _ _ _ _ _ _ _ H).
+  - exact (v_ent _ _ _ _ _ _ _ _ H).
+  - exact (v_impl _ _ _ _ _ _ _ _ H).
+  - exact (v_todo _ _ _ _ _ _ _ _ H).
+  - exact (v_done _ _ _ _ _ _ _ _ H).
+  - intros k0 y Hf0. destruct (v_dom _ _ _ _ _ _ _ _ H k0 y Hf0) as [mn0 [dn0 [Hn0 [Hd0 Hr0]]]].
+    destruct (Nat.eq_dec y x) as [->|Hne].
+    + assert (k0 = k) by exact (v_inj _ _ _ _ _ _ _ _ H k0 k x Hf0 Hfk). subst k0.
+      rewrite Hmn in Hn0. inversion Hn0; subst mn0. rewrite Hdx in Hd0. inversion Hd0; subst dn0.
+      exists mn, dn'. split; [exact Hmn|]. split; [exact Dx|].
+      destruct Hr0 as [H1 [H2 [H3 _]]]. unfold nrel. rewrite Db, Dc.
+      split; [exact H1|]. split; [exact H2|]. split; [exact H3|]. split; [intros _; exact Dk|intro E; discriminate].
+    + exists mn0, dn0. split; [exact Hn0|]. split; [rewrite Do by exact Hne; exact Hd0|].
+      apply (nrel_retag f f None (Some x) None None); [apply psub_refl|reflexivity| |exact Hr0].
+      split; intro E; [discriminate|inversion E; congruence].
+  - exact (v_inj _ _ _ _ _ _ _ _ H).
+  - intros q y Hq Hqne. rewrite Hfind in Hq. exact (v_L1 _ _ _ _ _ _ _ _ H q y Hq Hqne).
+  - intros q k0 y Hq Hf0 Hnin. rewrite Hfind. exact (v_L2 _ _ _ _ _ _ _ _ H q k0 y Hq Hf0 Hnin).
+  - rewrite Dl. destruct (v_root _ _ _ _ _ _ _ _ H) as [Hl|[H1 [H2 [H3 H4]]]]; [left; exact Hl|right].
+    split; [exact H1|]. split; [|split; [exact H3|exact H4]].
+    rewrite Do; [exact H2|]. intro E. subst x. exact (H3 k Hfk).
+  - intros q [].
+  - constructor.
+  - intros j Hj. discriminate.
+  - intros y Hy. discriminate.
+Qed.
+
+(* ---------- the class: implicit parent directories allowed ---------- *)
+
+Lemma m_nlink_inc_m : forall s j, ms_m (m_nlink_inc s j) = ms_m s.
+Proof. intros s j. unfold m_nlink_inc. destruct (nth_error (ms_nodes s) j); reflexivity. Qed.
+
+Definition ord_toc (toc : list entry) : Prop :=
+  forall j k ej ek, nth_error toc j = Some ej -> nth_error toc k = Some ek -> psfx (cname ek) (cname ej) -> (k < j)%nat.
+
+Lemma Inv_step : forall toc i ms ds f e, ord_toc toc -> entry_ok e ->
+  Inv toc i ms ds f [] None None -> nth_error toc i = Some e ->
+  exists ms' ds' f', pass2_step (Some ms) (i, e) = Some ms' /\ db_step (Some ds) e = Some ds' /\
+                     Inv toc (S i) ms' ds' f' [] None None.
+Proof.
+  intros toc i ms ds f e Hord He H Hi.
+  assert (Li : (i < length toc)%nat) by (apply nth_error_Some; congruence).
+  destruct (cname e) as [|base par] eqn:Hname; [exfalso; exact (eo_name e He Hname)|].
+  assert (Hnc : etype_eqb (e_type e) TChunk = false) by exact (okt_not_chunk e (eo_type e He)).
+  assert (Hnh : etype_eqb (e_type e) THardlink = false) by exact (okt_not_hardlink e (eo_type e He)).
+  (* the db store does not have this name yet *)
+  assert (Hfresh : d_find ds (base :: par) = None).
+  { destruct (d_find ds (base :: par)) as [y|] eqn:E; [|reflexivity]. exfalso.
+    destruct (v_L1 _ _ _ _ _ _ _ _ H _ y E ltac:(discriminate)) as [k0 [Hk0 [Hf0 _]]].
+    rewrite <- Hname in Hk0. rewrite (v_expl _ _ _ _ _ _ _ _ H i e Hi) in Hk0. inversion Hk0; subst k0.
+    destruct (nth_error (ms_nodes ms) i) as [mni|] eqn:Hmni;
+      [|apply nth_error_None in Hmni; pose proof (v_lenm _ _ _ _ _ _ _ _ H); lia].
+    destruct (v_todo _ _ _ _ _ _ _ _ H i mni (conj (le_n i) Li) Hmni) as [Hfi _]. congruence. }
+  set (x := length (ds_nodes ds)).
+  assert (Hne : cname e <> []) by (rewrite Hname; discriminate).
+  pose proof (Inv_begin toc i ms ds f e H Hi Hne) as H1. fold x in H1.
+  set (ds1 := fst (d_new ds (attr_of e (init_nl e + 1)))) in *. set (f1 := pset f i x) in *.
+  assert (Hplain : Forall plain par).
+  { pose proof (cname_plain e) as Hp. rewrite Hname in Hp. inversion Hp; assumption. }
+  destruct (goc_sim toc (S i) (Some i) (Some x) par ms ds1 f1 [cname e] H1 Hplain) as
+      [ms2 [ds2 [f2 [kp [pid [G1 [G2 [H2 [Hpp [Hfkp [Hsub2 Hmono2]]]]]]]]]]].
+  { intros q k0 Hq Hp Hf0.
+    destruct (v_mdom _ _ _ _ _ _ _ _ H q k0 Hp) as [mn [Hn Hc]].
+    destruct (Nat.lt_ge_cases k0 (length toc)) as [Hl|Hg].
+    - pose proof (v_ent _ _ _ _ _ _ _ _ H k0 mn Hl Hn) as Hek.
+      assert (Hk0i : (k0 < i)%nat).
+      { apply (Hord i k0 e (mn_e mn) Hi Hek). rewrite Hc, Hname. apply psfx_of_sfx_cons. exact Hq. }
+      assert (k0 <> i) by lia. unfold f1 in Hf0. rewrite pset_other in Hf0 by assumption.
+      exact (v_done _ _ _ _ _ _ _ _ H k0 Hk0i Hl Hf0).
+    - destruct (v_impl _ _ _ _ _ _ _ _ H k0 mn Hg Hn) as [_ Hfn].
+      assert (k0 <> i) by lia. unfold f1 in Hf0. rewrite pset_other in Hf0 by assumption. exact (Hfn Hf0). }
+  { intros q Hq [E|[]]. rewrite Hname in E. subst q. exact (not_sfx_longer base par Hq). }
+  pose proof (Inv_npdone _ _ _ _ _ _ _ _ H2) as H3.
+  assert (Hpi2 : pfind (base :: par) (ms_m ms2) = Some i).
+  { rewrite <- Hname. exact (v_expl _ _ _ _ _ _ _ _ H2 i e Hi). }
+  assert (Hfi2 : f2 i = Some x) by (apply Hsub2; unfold f1; apply pset_same).
+  assert (HparP : ~ In par [base :: par]).
+  { intros [E|[]]. apply (f_equal (@length Z)) in E. simpl in E. lia. }
+  rewrite Hname in H3.
+  pose proof (Inv_link toc (S i) (m_nlink_inc ms2 i) ds2 f2 (base :: par) [] None (Some x) base par i x kp pid H3 eq_refl) as H4.
+  rewrite m_nlink_inc_m in H4. specialize (H4 Hpi2 Hfi2 Hpp Hfkp HparP ltac:(discriminate)).
+  (* the type the memory store sees for node i *)
+  destruct (v_dom _ _ _ _ _ _ _ _ H3 i x Hfi2) as [mni3 [dni3 [Hmni3 _]]].
+  assert (Hei3 : mn_e mni3 = e).
+  { pose proof (v_ent _ _ _ _ _ _ _ _ H3 i mni3 Li Hmni3) as E. rewrite Hi in E. inversion E. reflexivity. }
+  assert (Htype : m_type (m_nlink_inc ms2 i) i = e_type e) by (unfold m_type; rewrite Hmni3, Hei3; reflexivity).
+  rewrite Htype in H4.
+  set (ms4 := m_add_child (m_nlink_inc ms2 i) kp base i) in *.
+  set (ds4 := d_set_child ds2 pid base x (etype_eqb (e_type e) TDir)) in *.
+  destruct (v_dom _ _ _ _ _ _ _ _ H4 i x Hfi2) as [mni4 [dni4 [Hmni4 _]]].
+  assert (Hei4 : mn_e mni4 = e).
+  { pose proof (v_ent _ _ _ _ _ _ _ _ H4 i mni4 Li Hmni4) as E. rewrite Hi in E. inversion E. reflexivity. }
+  pose proof (Inv_finish toc (S i) ms4 ds4 f2 i x mni4 e (db_chsize e (ds_lastsize ds)) H4 Hfi2 Hmni4 Hei4 Hnc
+                (db_chsize_reg e _ _ Hnc)) as H5.
+  exists ms4. eexists. exists f2. split; [|split; [|exact H5]].
+  - unfold pass2_step. rewrite Hnc. unfold cname in Hname. rewrite Hname. rewrite G1. rewrite Hnh. reflexivity.
+  - unfold db_step. unfold cname in Hname. rewrite Hname, Hnc, Hnh.
+    replace (if etype_eqb (e_type e) TDir then d_find ds (base :: par) else None) with (@None nat)
+      by (destruct (etype_eqb (e_type e) TDir); [symmetry; exact Hfresh|reflexivity]).
+    replace (if etype_eqb (e_type e) TDir then 2 else 1) with (init_nl e + 1)
+      by (unfold init_nl; destruct (etype_eqb (e_type e) TDir); reflexivity).
+    rewrite (surjective_pairing (d_new ds (attr_of e (init_nl e + 1)))). fold ds1.
+    replace (snd (d_new ds (attr_of e (init_nl e + 1)))) with x by reflexivity.
+    rewrite G2. reflexivity.
+Qed.
+
+(* ---------- initial states and the whole run ---------- *)
+
+Lemma pfind_some_in : forall {B} (L : list (list Z * B)) p v, pfind p L = Some v -> In (p, v) L.
+Proof.
+  induction L as [|[q w] t IH]; intros p v H; simpl in H; [discriminate|].
+  destruct (path_eqb p q) eqn:E.
+  - apply path_eqb_eq in E. inversion H; subst. left. reflexivity.
+  - right. exact (IH p v H).
+Qed.
+
+Lemma number_in : forall {B} (l : list B) s k x, In (k, x) (number s l) -> (s <= k)%nat /\ nth_error l (k - s) = Some x.
+Proof.
+  induction l as [|h t IH]; intros s k x H; simpl in H; [destruct H|].
+  destruct H as [H|H].
+  - inversion H; subst. split; [lia|]. rewrite Nat.sub_diag. reflexivity.
+  - destruct (IH (S s) k x H) as [H1 H2]. split; [lia|].
+    replace (k - s)%nat with (S (k - S s)) by lia. exact H2.
+Qed.
+
+Definition ms_init (toc : list entry) : mst := MS (map init_node toc) (rev (names_from 0 toc)).
+
+Lemma Inv_init : forall toc, NoDup (map cname toc) -> Inv toc 0 (ms_init toc) d_init (fun _ => None) [] None None.
+Proof.
+  intros toc Hnd. unfold ms_init. constructor; cbn [ms_nodes ms_m].
+  - rewrite map_length. lia.
+  - intros j e Hj. exact (m0_lookup toc j e Hnd Hj).
+  - intros p k Hp. apply pfind_some_in in Hp. apply in_rev in Hp. unfold names_from in Hp.
+    apply in_map_iff in Hp. destruct Hp as [[k0 e] [E Hin]]. simpl in E. inversion E; subst.
+    destruct (number_in toc 0%nat k e Hin) as [_ Hn]. rewrite Nat.sub_0_r in Hn.
+    exists (init_node e). split; [rewrite nth_error_map, Hn; reflexivity|reflexivity].
+  - intros j mn Hj Hn. rewrite nth_error_map in Hn. destruct (nth_error toc j); simpl in Hn; inversion Hn; subst. reflexivity.
+  - intros k mn Hk Hn. assert (nth_error (map init_node toc) k = None) by (apply nth_error_None; rewrite map_length; exact Hk). congruence.
+  - intros j mn Hj Hn. rewrite nth_error_map in Hn. destruct (nth_error toc j); simpl in Hn; inversion Hn; subst.
+    split; [reflexivity|split; reflexivity].
+  - intros j Hj. lia.
+  - intros k x Hf. discriminate.
+  - intros k k' x Hf. discriminate.
+  - intros p x Hp Hpne. exfalso. destruct p as [|b q]; [contradiction|].
+    rewrite d_find_cons in Hp. destruct (d_find d_init q) as [y|] eqn:E; [|discriminate].
+    assert (Hy : d_children d_init y = []).
+    { unfold d_children, d_init. simpl. destruct y as [|y]; [reflexivity|]. destruct y; reflexivity. }
+    rewrite Hy in Hp. discriminate.
+  - intros p k x Hp Hf. discriminate.
+  - right. split; [destruct (pfind [] (rev (names_from 0 toc))) as [r0|]; [right; exists r0; auto|left; reflexivity]|].
+    split; [reflexivity|]. split; [intros k Hk; discriminate|].
+    rewrite map_length. simpl. lia.
+  - intros p [].
+  - constructor.
+  - intros j Hj. discriminate.
+  - intros y Hy. discriminate.
+Qed.
+
+Lemma Inv_run : forall toc, ord_toc toc -> forall suffix i ms ds f, Inv toc i ms ds f [] None None ->
+  Forall entry_ok suffix ->
+  (forall k e, nth_error suffix k = Some e -> nth_error toc (i + k) = Some e) ->
+  (length suffix + i = length toc)%nat ->
+  exists ms' ds' f', fold_left pass2_step (number i suffix) (Some ms) = Some ms' /\
+                     fold_left db_step suffix (Some ds) = Some ds' /\ Inv toc (length toc) ms' ds' f' [] None None.
+Proof.
+  intros toc Hs. induction suffix as [|e t IH]; intros i ms ds f HI Hoks Hnth Hlen.
+  - simpl in *. subst i. exists ms, ds, f. auto.
+  - assert (Hi : nth_error toc i = Some e) by (rewrite <- (Nat.add_0_r i); apply Hnth; reflexivity).
+    inversion Hoks as [|? ? Hoke Hokt]; subst.
+    destruct (Inv_step toc i ms ds f e Hs Hoke HI Hi) as [ms1 [ds1 [f1 [H1 [H2 HI1]]]]].
+    cbn [number fold_left]. rewrite H1, H2. apply (IH (S i) ms1 ds1 f1 HI1 Hokt).
+    + intros k e' Hk. replace (S i + k)%nat with (i + S k)%nat by lia. apply Hnth. exact Hk.
+    + simpl in Hlen. lia.
+Qed.
+
+Lemma d_find_prefix : forall s b q y, d_find s (b :: q) = Some y -> exists z, d_find s q = Some z.
+Proof. intros s b q y H. rewrite d_find_cons in H. destruct (d_find s q) as [z|]; [exists z; reflexivity|discriminate]. Qed.
+
+(* once an entry has been processed the memory store has its root *)
+Lemma Inv_root_mapped : forall toc i ms ds f e, Inv toc (S i) ms ds f [] None None -> nth_error toc 0 = Some e ->
+  exists r, pfind [] (ms_m ms) = Some r /\ f r = Some O /\ (length (ms_nodes ms) + S i = length (ds_nodes ds) + length toc)%nat.
+Proof.
+  intros toc i ms ds f e H H0.
+  destruct (v_root _ _ _ _ _ _ _ _ H) as [[r [H1 [H2 H3]]]|[_ [Hroot [Hno _]]]].
+  - exists r. split; [exact H1|]. split; [exact H2|]. lia.
+  - exfalso.
+    assert (L0 : (0 < length toc)%nat) by (apply nth_error_Some; congruence).
+    destruct (f 0%nat) as [x0|] eqn:Ef; [|exact (v_done _ _ _ _ _ _ _ _ H 0%nat ltac:(lia) L0 Ef)].
+    pose proof (v_L2 _ _ _ _ _ _ _ _ H (cname e) 0%nat x0 (v_expl _ _ _ _ _ _ _ _ H 0%nat e H0) Ef ltac:(intros [])) as Hd.
+    destruct (cname e) as [|c0 q0] eqn:Hne0; [simpl in Hd; inversion Hd; subst x0; exact (Hno 0%nat Ef)|].
+    assert (Hne : c0 :: q0 <> []) by discriminate.
+    (* walk down to the top-level ancestor *)
+    assert (Htop : forall p y, d_find ds p = Some y -> p <> [] -> exists c y', d_find ds [c] = Some y').
+    { induction p as [|b q IHp]; intros y Hp Hpne; [contradiction|].
+      destruct q as [|b' q']; [exists b, y; exact Hp|].
+      destruct (d_find_prefix ds b (b' :: q') y Hp) as [z Hz]. apply (IHp z Hz). discriminate. }
+    destruct (Htop (c0 :: q0) x0 Hd Hne) as [c [y' Hc]].
+    rewrite d_find_cons in Hc. simpl in Hc. unfold d_children in Hc. rewrite Hroot in Hc. simpl in Hc. discriminate.
+Qed.
+
+(* ---------- the walks ---------- *)
+
+Definition rrel (f : pmap) (r r' : rnode) : Prop := f (fst r) = Some (fst r') /\ snd r = snd r'.
+
+Lemma first_index_rel : forall f, (forall k k' x, f k = Some x -> f k' = Some x -> k = k') ->
+  forall l l', Forall2 (rrel f) l l' -> forall id id' n0, f id = Some id' -> first_index id l n0 = first_index id' l' n0.
+Proof.
+  intros f Hinj l l' H. induction H as [|[a v] [a' v'] l l' [Ha _] _ IH]; intros id id' n0 Hid; simpl; [reflexivity|].
+  simpl in Ha. destruct (Nat.eqb id a) eqn:E.
+  - apply Nat.eqb_eq in E. subst a. assert (id' = a') by congruence. subst a'. rewrite Nat.eqb_refl. reflexivity.
+  - replace (Nat.eqb id' a') with false; [apply IH; exact Hid|].
+    symmetry. apply Nat.eqb_neq. intro; subst a'. apply Nat.eqb_neq in E. apply E. exact (Hinj id a id' Hid Ha).
+Qed.
+
+Lemma assign_inos_rel : forall f, (forall k k' x, f k = Some x -> f k' = Some x -> k = k') ->
+  forall l l', Forall2 (rrel f) l l' -> assign_inos l = assign_inos l'.
+Proof.
+  intros f Hinj l l' H. unfold assign_inos.
+  assert (G : forall L L', Forall2 (rrel f) L L' -> forall s s', Forall2 (rrel f) s s' ->
+    map (fun r : rnode => let '(id, v) := r in V (v_path v) (v_attr v) (v_off v) (first_index id L 0) (v_reg v) (v_probes v)) s =
+    map (fun r : rnode => let '(id, v) := r in V (v_path v) (v_attr v) (v_off v) (first_index id L' 0) (v_reg v) (v_probes v)) s').
+  { intros L L' HL s s' Hs. induction Hs as [|[a v] [a' v'] s s' [Ha Hv] _ IH]; [reflexivity|]. simpl in *. subst v'.
+    rewrite (first_index_rel f Hinj L L' HL a a' 0%nat Ha). f_equal. exact IH. }
+  exact (G l l' H l l' H).
+Qed.
+
+Lemma show_ok_implicit : forall d, show_ok (implicit_dir d).
+Proof. intro d. constructor; simpl; try reflexivity; try lia; intro H; try discriminate. Qed.
+
+Lemma walk_rel : forall toc M D f probes, Forall show_ok toc -> Inv toc (length toc) M D f [] None None ->
+  Forall (fun p => 0 <= p) probes ->
+  forall fuel k x path, f k = Some x ->
+    Forall2 (rrel f) (mem_walk M [] probes fuel k path) (db_walk D probes fuel x path).
+Proof.
+  intros toc M D f probes Hok H Hprobes. induction fuel as [|fuel IH]; intros k x path Hf; [constructor|].
+  cbn [mem_walk db_walk].
+  destruct (v_dom _ _ _ _ _ _ _ _ H k x Hf) as [mn [dn [Hn [Hd Hr]]]]. rewrite Hn, Hd.
+  assert (Hshow : show_ok (mn_e mn)).
+  { destruct (Nat.lt_ge_cases k (length toc)) as [Hl|Hg].
+    - rewrite Forall_forall in Hok. apply Hok. eapply nth_error_In. exact (v_ent _ _ _ _ _ _ _ _ H k mn Hl Hn).
+    - destruct (v_impl _ _ _ _ _ _ _ _ H k mn Hg Hn) as [[d Hd'] _]. rewrite Hd'. apply show_ok_implicit. }
+  destruct Hr as [Hb [Hnl [Hc [Hck _]]]].
+  constructor.
+  - split.
+    + rewrite (surjective_pairing (mem_vnode M [] probes k mn path)). rewrite (surjective_pairing (db_vnode probes x dn path)).
+      exact Hf.
+    + change (snd (db_vnode probes x dn path)) with (snd (db_vnode probes x (DN (dn_b dn) (shift (mn_ch mn)) (dn_chunks dn)) path)).
+      apply (vnode_same toc M probes Hprobes k x mn _ path Hn); [|exact Hshow].
+      unfold node_rel. cbn [dn_b dn_ch dn_chunks]. unfold nadj in Hb, Hnl. rewrite Z.add_0_r in Hb, Hnl.
+      split; [exact Hb|]. split; [exact Hnl|]. split; [reflexivity|]. apply Hck. discriminate.
+  - clear Hn Hd Hb Hnl Hck Hshow. induction Hc as [|[key c] [key' c'] a b [Hk Hfc] _ IHc]; [constructor|].
+    simpl in Hk, Hfc. subst key'. cbn [flat_map fst snd]. apply Forall2_app; [|exact IHc].
+    apply IH. exact Hfc.
+Qed.
+
+
+(* ---------- an explicit root entry ("./", "/") ---------- *)
+
+Lemma Inv_step_root : forall toc i ms ds f e,
+  Inv toc i ms ds f [] None None -> nth_error toc i = Some e -> cname e = [] -> e_type e = TDir ->
+  nth_error (ds_nodes ds) 0 = Some (DN (write_attr root_attr) [] []) -> (forall k, f k <> Some O) ->
+  exists ds', pass2_step (Some ms) (i, e) = Some (m_nlink_inc ms i) /\ db_step (Some ds) e = Some ds' /\
+              Inv toc (S i) (m_nlink_inc ms i) ds' (pset f i O) [] None None.
+Proof.
+  intros toc i ms ds f e H Hi Hname Hdir Hroot Hno.
+  assert (Li : (i < length toc)%nat) by (apply nth_error_Some; congruence).
+  destruct (nth_error (ms_nodes ms) i) as [mni|] eqn:Hmni;
+    [|apply nth_error_None in Hmni; pose proof (v_lenm _ _ _ _ _ _ _ _ H); lia].
+  assert (Hei : mn_e mni = e).
+  { pose proof (v_ent _ _ _ _ _ _ _ _ H i mni Li Hmni) as E. rewrite Hi in E. inversion E. reflexivity. }
+  destruct (v_todo _ _ _ _ _ _ _ _ H i mni (conj (le_n i) Li) Hmni) as [Hfi [Hnl Hch]].
+  assert (Hpi : pfind [] (ms_m ms) = Some i) by (rewrite <- Hname; exact (v_expl _ _ _ _ _ _ _ _ H i e Hi)).
+  set (ds' := DS (upd (ds_nodes ds) 0 (DN (write_attr (attr_of e 2)) [] [])) (Some O) (e_size e)).
+  set (f' := pset f i O).
+  assert (L0 : (0 < length (ds_nodes ds))%nat) by (apply nth_error_Some; congruence).
+  assert (Lmi : (i < length (ms_nodes ms))%nat) by (apply nth_error_Some; congruence).
+  assert (Hs : m_nlink_inc ms i = MS (upd (ms_nodes ms) i (MN e (init_nl e + 1) [])) (ms_m ms))
+    by (unfold m_nlink_inc; rewrite Hmni, Hei, Hnl, Hch, Hei; reflexivity).
+  assert (Hsub : psub f f') by (apply psub_pset; exact Hfi).
+  assert (Hf'old : forall k0, k0 <> i -> f' k0 = f k0) by (intros; apply pset_other; assumption).
+  assert (Hch0 : forall y, d_children ds y = d_children ds' y).
+  { intro y. unfold d_children, ds'. cbn [ds_nodes]. destruct y as [|y].
+    - rewrite Hroot. destruct (ds_nodes ds); [simpl in L0; lia|reflexivity].
+    - destruct (ds_nodes ds); reflexivity. }
+  assert (Hfind : forall p, d_find ds' p = d_find ds p) by (intro p; symmetry; apply d_find_ext; exact Hch0).
+  assert (Do : forall z, z <> O -> nth_error (ds_nodes ds') z = nth_error (ds_nodes ds) z)
+    by (intros z Hz; unfold ds'; cbn [ds_nodes]; apply nth_upd_other; congruence).
+  assert (D0 : nth_error (ds_nodes ds') 0 = Some (DN (write_attr (attr_of e 2)) [] []))
+    by (unfold ds'; cbn [ds_nodes]; apply nth_upd_same; exact L0).
+  assert (Mi : nth_error (ms_nodes (m_nlink_inc ms i)) i = Some (MN e (init_nl e + 1) []))
+    by (rewrite Hs; cbn [ms_nodes]; apply nth_upd_same; exact Lmi).
+  assert (Mo : forall z, z <> i -> nth_error (ms_nodes (m_nlink_inc ms i)) z = nth_error (ms_nodes ms) z)
+    by (intros z Hz; rewrite Hs; cbn [ms_nodes]; apply nth_upd_other; congruence).
+  assert (Mm : ms_m (m_nlink_inc ms i) = ms_m ms) by apply m_nlink_inc_m.
+  assert (Mlen : length (ms_nodes (m_nlink_inc ms i)) = length (ms_nodes ms)) by (rewrite Hs; cbn [ms_nodes]; apply upd_length).
+  assert (Hinit : init_nl e + 1 = 2) by (unfold init_nl; rewrite Hdir; reflexivity).
+  exists ds'. split; [|split].
+  - unfold pass2_step. rewrite Hdir. simpl etype_eqb. cbv iota. unfold cname in Hname. rewrite Hname. reflexivity.
+  - unfold db_step. unfold cname in Hname. rewrite Hname, Hdir. simpl etype_eqb. cbv iota.
+    cbn [d_find]. rewrite Hroot. unfold d_upd_bucket. rewrite Hroot.
+    replace (read_numlink (dn_b (DN (write_attr root_attr) [] []))) with 2 by reflexivity.
+    unfold d_add_chunk. rewrite Hdir. simpl etype_eqb. simpl. reflexivity.
+  - constructor.
+    + rewrite Mlen. exact (v_lenm _ _ _ _ _ _ _ _ H).
+    + rewrite Mm. exact (v_expl _ _ _ _ _ _ _ _ H).
+    + intros q k0 Hq. rewrite Mm in Hq. destruct (v_mdom _ _ _ _ _ _ _ _ H q k0 Hq) as [mn [Hn Hc]].
+      destruct (Nat.eq_dec k0 i) as [->|Hne].
+      * eexists. split; [exact Mi|]. simpl. rewrite Hmni in Hn. inversion Hn; subst mn. rewrite <- Hei. exact Hc.
+      * exists mn. split; [rewrite Mo by exact Hne; exact Hn|exact Hc].
+    + intros j mn Hj Hn. destruct (Nat.eq_dec j i) as [->|Hne].
+      * rewrite Mi in Hn. inversion Hn; subst mn. exact Hi.
+      * rewrite Mo in Hn by exact Hne. exact (v_ent _ _ _ _ _ _ _ _ H j mn Hj Hn).
+    + intros k0 mn Hk0 Hn. rewrite Mo in Hn by lia. destruct (v_impl _ _ _ _ _ _ _ _ H k0 mn Hk0 Hn) as [Hd Hf0].
+      split; [exact Hd|]. rewrite Hf'old by lia. exact Hf0.
+    + intros j mn Hj Hn. rewrite Mo in Hn by lia. rewrite Hf'old by lia. apply (v_todo _ _ _ _ _ _ _ _ H j mn); [lia|exact Hn].
+    + intros j Hj Hjn. destruct (Nat.eq_dec j i) as [->|Hji].
+      * unfold f'. rewrite pset_same. discriminate.
+      * rewrite Hf'old by exact Hji. apply (v_done _ _ _ _ _ _ _ _ H); lia.
+    + intros k0 x0 Hf0. destruct (Nat.eq_dec k0 i) as [->|Hne0].
+      * unfold f' in Hf0. rewrite pset_same in Hf0. inversion Hf0; subst x0.
+        eexists. eexists. split; [exact Mi|]. split; [exact D0|].
+        unfold nrel. cbn [mn_e mn_nlink mn_ch dn_b dn_ch dn_chunks nadj]. rewrite Z.add_0_r, Hinit.
+        split; [reflexivity|]. split; [lia|]. split; [constructor|].
+        split; [intros _; unfold chunks_ok; cbn [mn_e dn_chunks]; rewrite Hdir; reflexivity|intro E; discriminate].
+      * rewrite Hf'old in Hf0 by exact Hne0.
+        destruct (v_dom _ _ _ _ _ _ _ _ H k0 x0 Hf0) as [mn [dn [Hn [Hd Hr]]]].
+        exists mn, dn. split; [rewrite Mo by exact Hne0; exact Hn|]. split.
+        { rewrite Do; [exact Hd|]. intro E. subst x0. exact (Hno k0 Hf0). }
+        exact (nrel_mono f f' _ _ _ _ _ _ Hsub Hr).
+    + intros k0 k1 y H0 H1. destruct (Nat.eq_dec k0 i) as [->|Hne0]; destruct (Nat.eq_dec k1 i) as [->|Hne1]; try reflexivity.
+      * unfold f' in H0. rewrite pset_same in H0. inversion H0; subst y. rewrite Hf'old in H1 by exact Hne1. exfalso. exact (Hno k1 H1).
+      * unfold f' in H1. rewrite pset_same in H1. inversion H1; subst y. rewrite Hf'old in H0 by exact Hne0. exfalso. exact (Hno k0 H0).
+      * rewrite Hf'old in H0, H1 by assumption. exact (v_inj _ _ _ _ _ _ _ _ H k0 k1 y H0 H1).
+    + intros q y Hq Hqne. rewrite Hfind in Hq. rewrite Mm. destruct (v_L1 _ _ _ _ _ _ _ _ H q y Hq Hqne) as [k0 [H1 [H2 H3]]].
+      exists k0. split; [exact H1|]. split; [apply Hsub; exact H2|exact H3].
+    + intros q k0 y Hq Hf0 Hnin. rewrite Mm in Hq. rewrite Hfind. destruct (Nat.eq_dec k0 i) as [->|Hne0].
+      * assert (q = []) by exact (Inv_pfun_name _ _ _ _ _ _ _ _ H _ _ _ Hq Hpi). subst q.
+        unfold f' in Hf0. rewrite pset_same in Hf0. inversion Hf0. reflexivity.
+      * rewrite Hf'old in Hf0 by exact Hne0. exact (v_L2 _ _ _ _ _ _ _ _ H q k0 y Hq Hf0 Hnin).
+    + left. exists i. rewrite Mm, Mlen. split; [exact Hpi|]. split; [unfold f'; apply pset_same|].
+      unfold ds'. cbn [ds_nodes]. rewrite upd_length.
+      destruct (v_root _ _ _ _ _ _ _ _ H) as [[r [_ [Hfr _]]]|[_ [_ [_ Hl]]]]; [exfalso; exact (Hno r Hfr)|lia].
+    + intros q [].
+    + constructor.
+    + intros j Hj. discriminate.
+    + intros y Hy. discriminate.
+Qed.
+
+(* ---------- the class: implicit parents and an optional explicit root entry ---------- *)
+
+Definition root_entry (e : entry) : Prop :=
+  cname e = [] /\ e_type e = TDir /\ 0 <= e_perm e < 16777216 /\ e_off e = 0.
+
+Record tree_toc (toc : list entry) : Prop := {
+  tt_ok : Forall (fun e => entry_ok e \/ root_entry e) toc;
+  tt_nodup : NoDup (map cname toc);
+  (* an entry whose name is an ancestor of another entry's name comes first *)
+  tt_ord : ord_toc toc
+}.
+
+Lemma show_ok_root_entry : forall e, root_entry e -> show_ok e.
+Proof.
+  intros e [_ [Hd [Hp Ho]]]. constructor.
+  - rewrite Hd. reflexivity.
+  - exact Hp.
+  - intro Hr. rewrite Hd in Hr. discriminate.
+  - intros _. exact Ho.
+Qed.
+
+Definition pass1_ok (e : entry) : Prop :=
+  etype_eqb (e_type e) TChunk = false /\
+  (etype_eqb (e_type e) TReg && (e_chsize e >? 0) && (e_chsize e <? e_size e)) = false.
+
+Lemma pass1_weak : forall toc s, Forall pass1_ok toc -> p1_chunks s = [] ->
+  let s' := fold_left pass1_step toc s in
+  p1_nodes s' = p1_nodes s ++ map init_node toc
+  /\ p1_m s' = rev (names_from (length (p1_nodes s)) toc) ++ p1_m s
+  /\ p1_chunks s' = [].
+Proof.
+  induction toc as [|e t IH]; intros s Hok Hc; cbn [fold_left].
+  - simpl. rewrite app_nil_r. auto.
+  - inversion Hok as [|? ? [He1 He2] Ht]; subst.
+    assert (Hstep : pass1_step s e =
+       P1 (p1_nodes s ++ [init_node e]) ((cname e, length (p1_nodes s)) :: p1_m s) [] (cname e)
+          (if etype_eqb (e_type e) TReg then Some (e_size e) else p1_lastreg s)).
+    { unfold pass1_step. rewrite He1, He2, Hc. reflexivity. }
+    rewrite Hstep. match goal with |- context [fold_left pass1_step t ?s1] => specialize (IH s1 Ht eq_refl) end.
+    cbn [p1_nodes p1_m p1_chunks] in IH.
+    destruct IH as [I1 [I2 I3]]. repeat split.
+    + rewrite I1. rewrite <- app_assoc. reflexivity.
+    + rewrite I2. rewrite app_length. simpl length. replace (length (p1_nodes s) + 1)%nat with (S (length (p1_nodes s))) by lia.
+      unfold names_from. cbn [number map rev]. rewrite <- app_assoc. reflexivity.
+    + exact I3.
+Qed.
+
+Lemma tree_pass1_ok : forall toc, Forall (fun e => entry_ok e \/ root_entry e) toc -> Forall pass1_ok toc.
+Proof.
+  intros toc H. apply Forall_forall. intros e Hin. rewrite Forall_forall in H. destruct (H e Hin) as [He|[_ [Hd _]]].
+  - split; [exact (okt_not_chunk e (eo_type e He))|exact (reg_no_split e He)].
+  - split; rewrite Hd; reflexivity.
+Qed.
+
+Lemma tree_show_ok : forall toc, Forall (fun e => entry_ok e \/ root_entry e) toc -> Forall show_ok toc.
+Proof.
+  intros toc H. apply Forall_forall. intros e Hin. rewrite Forall_forall in H. destruct (H e Hin) as [He|Hr].
+  - exact (show_ok_entry e He).
+  - exact (show_ok_root_entry e Hr).
+Qed.
+
+Lemma agree_from_Inv : forall toc e0 M D f probes,
+  nth_error toc 0 = Some e0 -> Forall (fun e => entry_ok e \/ root_entry e) toc ->
+  fold_left pass2_step (number 0 toc) (Some (ms_init toc)) = Some M -> db_build toc = Some D ->
+  Inv toc (length toc) M D f [] None None -> Forall (fun p => 0 <= p) probes ->
+  view_mem toc probes = view_db toc probes /\ view_mem toc probes <> None.
+Proof.
+  intros toc e0 M D f probes H0 Hok Hm Hd HI Hp.
+  destruct (pass1_weak toc (P1 [] [] [] [] None) (tree_pass1_ok toc Hok) eq_refl) as [P1n [P1m P1c]].
+  cbn [p1_nodes p1_m app length] in P1n, P1m. rewrite app_nil_r in P1m. fold (pass1 toc) in P1n, P1m, P1c.
+  assert (Hlen : exists n', length toc = S n') by (destruct toc; [discriminate|eexists; reflexivity]).
+  destruct Hlen as [n' Hn'].
+  assert (HIS : Inv toc (S n') M D f [] None None) by (rewrite <- Hn'; exact HI).
+  destruct (Inv_root_mapped toc n' M D f e0 HIS H0) as [r [Hr [Hfr Hlen]]].
+  assert (Hmb : mem_build toc = Some (M, [])).
+  { unfold mem_build. rewrite P1n, P1m, P1c. unfold ms_init in Hm. rewrite Hm.
+    destruct (ms_m M) eqn:E; [simpl in Hr; discriminate|reflexivity]. }
+  unfold view_mem, view_db. rewrite Hmb, Hd, Hr.
+  split; [|discriminate]. f_equal.
+  replace (length (ds_nodes D)) with (length (ms_nodes M)) by lia.
+  apply (assign_inos_rel f (v_inj _ _ _ _ _ _ _ _ HI)).
+  apply (walk_rel toc M D f probes (tree_show_ok toc Hok) HI Hp). exact Hfr.
+Qed.
+
+Lemma psfx_nil : forall p, p <> [] -> psfx [] p.
+Proof. intros p H. exists p. split; [exact H|]. rewrite app_nil_r. reflexivity. Qed.
+
+Lemma stores_agree_tree : forall toc probes, tree_toc toc -> Forall (fun p => 0 <= p) probes ->
+  view_mem toc probes = view_db toc probes /\ view_mem toc probes <> None.
+Proof.
+  intros toc probes [Hok Hnd Hord] Hp.
+  destruct toc as [|e0 t]; [split; [reflexivity|discriminate]|].
+  set (toc := e0 :: t) in *.
+  pose proof (Inv_init toc Hnd) as H0.
+  inversion Hok as [|? ? Hok0 Hokt]; subst.
+  destruct Hok0 as [He0|Hr0].
+  - (* no root entry anywhere *)
+    assert (Hall : Forall entry_ok toc).
+    { apply Forall_forall. intros e Hin. rewrite Forall_forall in Hok. destruct (Hok e Hin) as [He|[Hn _]]; [exact He|exfalso].
+      apply In_nth_error in Hin. destruct Hin as [j Hj].
+      assert (j < 0)%nat; [|lia]. apply (Hord 0%nat j e0 e eq_refl Hj). rewrite Hn. apply psfx_nil. exact (eo_name e0 He0). }
+    destruct (Inv_run toc Hord toc 0%nat (ms_init toc) d_init (fun _ => None) H0 Hall) as [M [D [f [Hm [Hd HI]]]]];
+      [intros k e Hk; exact Hk|lia|].
+    exact (agree_from_Inv toc e0 M D f probes eq_refl Hok Hm Hd HI Hp).
+  - (* the first entry is the root *)
+    assert (Hallt : Forall entry_ok t).
+    { apply Forall_forall. intros e Hin. rewrite Forall_forall in Hokt. destruct (Hokt e Hin) as [He|[Hn _]]; [exact He|exfalso].
+      destruct Hr0 as [Hn0 _]. simpl in Hnd. inversion Hnd as [|? ? Hnin _]; subst. apply Hnin. rewrite Hn0, <- Hn.
+      apply in_map. exact Hin. }
+    destruct Hr0 as [Hn0 [Hd0 _]].
+    destruct (Inv_step_root toc 0%nat (ms_init toc) d_init (fun _ => None) e0 H0 eq_refl Hn0 Hd0 eq_refl ltac:(intros k Hk; discriminate))
+      as [ds1 [S1 [S2 H1]]].
+    destruct (Inv_run toc Hord t 1%nat _ ds1 _ H1 Hallt) as [M [D [f [Hm [Hd HI]]]]];
+      [intros k e Hk; exact Hk|simpl; lia|].
+    apply (agree_from_Inv toc e0 M D f probes eq_refl Hok); [| |exact HI|exact Hp].
+    + unfold toc at 1. cbn [number fold_left]. rewrite S1. exact Hm.
+    + unfold db_build, toc. cbn [fold_left]. rewrite S2. exact Hd.
+Qed.
+
+(* ---------- the boolean class predicates ---------- *)
+
+Lemma entry_okb_ok : forall e, entry_okb e = true -> entry_ok e.
+Proof.
+  intros e H. unfold entry_okb in H.
+  apply andb_true_iff in H. destruct H as [H Hreg].
+  apply andb_true_iff in H. destruct H as [H Hname].
+  apply andb_true_iff in H. destruct H as [H Hp2].
+  apply andb_true_iff in H. destruct H as [Hty Hp1].
+  constructor.
+  - destruct (e_type e); simpl in *; congruence.
+  - apply Z.leb_le in Hp1. apply Z.ltb_lt in Hp2. lia.
+  - intro E. unfold cname in E. rewrite E in Hname. discriminate.
+  - intro Hr. rewrite Hr in Hreg. simpl in Hreg.
+    apply andb_true_iff in Hreg. destruct Hreg as [Hreg Hoff].
+    apply andb_true_iff in Hreg. destruct Hreg as [Hreg Hcs].
+    apply andb_true_iff in Hreg. destruct Hreg as [Hsz Hco].
+    apply Z.leb_le in Hsz. apply Z.eqb_eq in Hco.
+    split; [exact Hsz|]. split; [exact Hco|]. split.
+    + apply orb_true_iff in Hcs. destruct Hcs as [E|E]; apply Z.eqb_eq in E; tauto.
+    + intro Hz. apply orb_true_iff in Hoff. destruct Hoff as [E|E].
+      * rewrite Hz in E. discriminate.
+      * apply Z.eqb_eq in E. exact E.
+  - intro Hr. destruct (etype_eqb (e_type e) TReg) eqn:E.
+    + exfalso. apply Hr. destruct (e_type e); simpl in E; congruence.
+    + apply Z.eqb_eq in Hreg. exact Hreg.
+Qed.
+
+Lemma root_entryb_ok : forall e, root_entryb e = true -> root_entry e.
+Proof.
+  intros e H. unfold root_entryb in H.
+  apply andb_true_iff in H. destruct H as [H Hoff].
+  apply andb_true_iff in H. destruct H as [H Hp2].
+  apply andb_true_iff in H. destruct H as [H Hp1].
+  apply andb_true_iff in H. destruct H as [Hn Hd].
+  split; [apply path_eqb_eq; exact Hn|]. split; [destruct (e_type e); simpl in Hd; congruence|].
+  apply Z.leb_le in Hp1. apply Z.ltb_lt in Hp2. apply Z.eqb_eq in Hoff. split; [lia|exact Hoff].
+Qed.
+
+Lemma nodup_paths_ok : forall l, nodup_paths l = true -> NoDup l.
+Proof.
+  induction l as [|p t IH]; intro H; [constructor|]. simpl in H. apply andb_true_iff in H. destruct H as [H1 H2].
+  constructor; [|exact (IH H2)]. intro Hin. apply negb_true_iff in H1.
+  assert (existsb (path_eqb p) t = true) by (apply existsb_exists; exists p; split; [exact Hin|apply path_eqb_refl]). congruence.
+Qed.
+
+Lemma psfx_suffix_proper : forall p q, psfx p q -> is_suffix_proper p q = true.
+Proof.
+  intros p q [pre [Hne E]]. subst q. induction pre as [|c pre IH]; [contradiction|].
+  simpl. destruct pre as [|c' pre'].
+  - simpl. rewrite path_eqb_refl. reflexivity.
+  - rewrite IH by discriminate. apply orb_true_r.
+Qed.
+
+Lemma ordb_ok : forall toc,
+  forallb (fun je : nat * entry =>
+       forallb (fun ke : nat * entry =>
+         negb (is_suffix_proper (clean (e_name (snd ke))) (clean (e_name (snd je)))) || Nat.ltb (fst ke) (fst je))
+         (number 0 toc)) (number 0 toc) = true -> ord_toc toc.
+Proof.
+  intros toc H3 j k ej ek Hj Hk Hp. rewrite forallb_forall in H3.
+  pose proof (H3 (j, ej) (number_nth toc 0%nat j ej Hj)) as H4. rewrite forallb_forall in H4.
+  pose proof (H4 (k, ek) (number_nth toc 0%nat k ek Hk)) as H5. cbn [fst snd] in H5.
+  unfold cname in Hp. rewrite (psfx_suffix_proper _ _ Hp) in H5. simpl in H5. apply Nat.ltb_lt. exact H5.
+Qed.
+
+Lemma rooted_tocb_ok : forall toc, rooted_tocb toc = true -> tree_toc toc.
+Proof.
+  intros toc H. unfold rooted_tocb in H. apply andb_true_iff in H. destruct H as [H H3].
+  apply andb_true_iff in H. destruct H as [H1 H2].
+  constructor.
+  - rewrite forallb_forall in H1. apply Forall_forall. intros e Hin. pose proof (H1 e Hin) as He.
+    apply orb_true_iff in He. destruct He as [He|He]; [left; exact (entry_okb_ok e He)|right; exact (root_entryb_ok e He)].
+  - exact (nodup_paths_ok _ H2).
+  - exact (ordb_ok toc H3).
+Qed.
+
+Lemma implicit_tocb_ok : forall toc, implicit_tocb toc = true -> tree_toc toc.
+Proof.
+  intros toc H. unfold implicit_tocb in H. apply andb_true_iff in H. destruct H as [H H3].
+  apply andb_true_iff in H. destruct H as [H1 H2].
+  constructor.
+  - rewrite forallb_forall in H1. apply Forall_forall. intros e Hin. left. exact (entry_okb_ok e (H1 e Hin)).
+  - exact (nodup_paths_ok _ H2).
+  - exact (ordb_ok toc H3).
 Qed.
